@@ -485,9 +485,30 @@ def sym_max_(*xs):
     return sym_max(*xs) if len(xs) > 1 else xs[0]
 
 
+def _program_body(E, w, prog):
+    """programs with a rechunk in them (over elemwise with and without keyword arguments, transpose, concatenate, expand_dims,
+    slices, another rechunk), optimized and materialized by the repository's pipeline: every block has the advertised
+    (= requested) size and the values are those of the un-rechunked program"""
+    from symx.sarr import same_array
+
+    from . import catalog
+
+    for stage in ("materialized", "materialized_off"):
+        m = catalog.stages(E, w, prog.node, {stage})[stage]
+        whole, dsk, r = catalog.run_tree(E, m, prog.node.chunks, stage, check_shapes=True)
+        same_array(E, whole, prog.ref, label=f"{stage}-values", skolem=f"p{stage[-1]}")
+
+
+def _program_instances(tier):
+    from . import catalog
+
+    return catalog.make_instances(tier, "C14", _program_body, "Rechunk pushdowns/_lower + TasksRechunk._layer inside programs",
+                                  select=lambda name: "rechunk" in name)
+
+
 def instances(tier):
     q = tier == "quick"
-    out = []
+    out = _program_instances(tier)
     mmax = 3 if q else 5
     for mo in range(1, mmax + 1):
         for mn in range(1, mmax + 1):
